@@ -139,10 +139,10 @@ def _draw_field(draw, index, ftype, fmt, type_name):
         return field
     candidates = [c for c in CANDIDATES if len(c) in fine_lengths]
     chosen = draw(st.lists(st.sampled_from(candidates), min_size=2, max_size=min(5, len(candidates)), unique=True))
-    n_pool = draw(st.integers(1, min(3, len(chosen))))
+    n_pool = draw(st.integers(min(2, len(chosen) - 1), min(3, len(chosen))))
     field["pool"] = chosen[:n_pool]
     if ftype == "Rec":
-        field["rejects"] = chosen[n_pool:n_pool + 2] if draw(st.booleans()) else []
+        field["rejects"] = chosen[n_pool:n_pool + 2] if draw(st.integers(0, 2)) else []
         field["rule"] = ("reject:" + "|".join(field["rejects"])) if field["rejects"] else "ok"
     return field
 
@@ -159,11 +159,11 @@ def _bad_kinds(field, fmt, api, allowed):
             if None not in lows and min(lows) >= 2:
                 kinds.append("short")
             if len(items) == 2:
-                kinds.append("gap")
+                kinds.extend(["gap", "gap"])
     if allowed is not None:
         kinds.append("badchar")
     if field["rejects"] or field["kind"] == "Integer":
-        kinds.append("listed")
+        kinds.extend(["listed", "listed"])
     return kinds
 
 
@@ -261,21 +261,23 @@ def cases(draw, plugin=False):
         type_name = draw(st.sampled_from(field_stems)) if plugin else "Rec"
         case["fields"].append(_draw_field(draw, index, kind, fmt, type_name))
     n_rec_checks = draw(st.sampled_from([1, 2, 2, 3] if plugin else [0, 1, 1, 2, 2, 2, 3, 3]))
+    # descriptions in an order that differs from the alphabetical one in most cases
+    descriptions = draw(st.permutations(["c1", "c2", "c3", "c4"]))
     for index in range(n_rec_checks):
         clauses = []
-        for _ in range(draw(st.sampled_from([0, 1, 1, 1, 2]))):
+        for _ in range(draw(st.sampled_from([0, 0, 1, 1, 1, 2]))):
             field = draw(st.sampled_from(case["fields"]))
             clauses.append([field["name"], draw(st.sampled_from(field["pool"]))])
         fails = draw(st.integers(0, 3)) == 0
         rule = ";".join(["veto:%s=%s" % (f, v) for f, v in clauses] + (["fail-at-end"] if fails else [])) or "ok"
-        case["checks"].append({"desc": "c%d" % (index + 1), "kind": "Rec",
+        case["checks"].append({"desc": descriptions[index], "kind": "Rec",
                                "type": draw(st.sampled_from(check_stems)) if plugin else "Rec", "rule": rule,
                                "vetoes": clauses, "fails": fails})
     if draw(st.integers(0, 2)) == 0:
         keys = draw(st.lists(st.sampled_from([f["name"] for f in case["fields"]]), min_size=1, max_size=2,
                              unique=True))
         case["checks"].insert(draw(st.integers(0, len(case["checks"]))),
-                              {"desc": "u", "kind": "IsUnique", "type": "IsUnique", "rule": ", ".join(keys),
+                              {"desc": draw(st.sampled_from(["a0", "c25", "u"])), "kind": "IsUnique", "type": "IsUnique", "rule": ", ".join(keys),
                                "keys": keys})
     for _ in range(draw(st.sampled_from([1, 1, 2, 2, 3]))):
         api = draw(st.sampled_from(["rows", "reader", "writer"]))
@@ -775,8 +777,8 @@ def check_plugin_case(sub, case):
 
 
 def run(ctx):
-    ctx.hyp("protocol", cases, check_case, ctx.n(4000, 120000))
-    ctx.hyp("plugins", lambda: cases(plugin=True), check_plugin_case, ctx.n(8, 200),
+    ctx.hyp("protocol", cases, check_case, ctx.n(8000, 150000))
+    ctx.hyp("plugins", lambda: cases(plugin=True), check_plugin_case, ctx.n(10, 240),
             workers=ctx.n(1, min(8, ctx.workers)))
 
 
